@@ -2,11 +2,12 @@
 Class-specific witnesses for the C04 extension on the generated schema (built apart from the obligations, like
 Gen/C01W.lean: they depend on what MAILSYNCRQ, BANKTRANLIST and STATUS look like today).
 
-  * `C04_generated_sound_full_kw_full_false` — the full-strength keyword-route soundness statement is false of the
-    generated schema: `MAILSYNCRQ(token="", rejectifmissing=True, incimages=False, usehtml=False)` is accepted
-    (`validate_args` counts the empty string as the one member of the exactly-one group token/tokenonly/refresh) and
-    the instance holds none of the three.  Confirmed on the real class.
-  * non-vacuity of the generated order theorems and of `C04_generated_sound_full_tree`.
+  * `C04_generated_reject_mailsync_empty_token` — the former counter-example of keyword-route soundness,
+    `MAILSYNCRQ(token="", rejectifmissing=True, incimages=False, usehtml=False)`, is now rejected
+    (`C04_reject_reqmutex_empty_text_kw`: the empty text is the only member of the exactly-one group
+    token/tokenonly/refresh that is passed).  Before `fix: an empty text does not count as a member given…` it was
+    accepted and the instance held none of the three.
+  * non-vacuity of the generated order theorems and of `C04_generated_sound_full_tree` / `_kw`.
 -/
 import OfxProofs.Gen.C04Ext
 
@@ -30,41 +31,46 @@ def mailsyncKw : List (Str × Node) :=
 
 def syncGroup : List Str := ["token".toList, "tokenonly".toList, "refresh".toList]
 
-/-- an instance of MAILSYNCRQ none of whose three group members is set -/
-def mailsyncBad : Node → Bool
-  | .agg ci fields [] => ci == ByName.idx_MAILSYNCRQ && mutexCount fields syncGroup == 0
-  | _ => false
-
-theorem mailsync_accepted :
-    accept (construct schema Types.conv ByName.idx_MAILSYNCRQ [] mailsyncKw) mailsyncBad = true := by
-  decide +kernel
-
 theorem mailsync_cls : schema.cls? ByName.idx_MAILSYNCRQ = some ByName.cls_MAILSYNCRQ := by rfl
 
 theorem mailsync_group : syncGroup ∈ ByName.cls_MAILSYNCRQ.reqMutex := by decide +kernel
 
-/-- **the full-strength keyword-route statement is false of the generated schema** -/
-theorem C04_generated_sound_full_kw_full_false : ¬ C04_sound_full_kw_full schema := by
-  intro h
-  obtain ⟨n, hn, hbad⟩ := ok_of_accept _ _ mailsync_accepted
-  have hv := h ByName.idx_MAILSYNCRQ [] mailsyncKw n hn (by intro m hm; cases hm)
+/-- **the former witness is rejected**: `MAILSYNCRQ(token="", rejectifmissing=True, incimages=False, usehtml=False)` -/
+theorem C04_generated_reject_mailsync_empty_token :
+    ∃ e, construct schema Types.conv ByName.idx_MAILSYNCRQ [] mailsyncKw = .error e :=
+  C04_reject_reqmutex_empty_text_kw schema Types.conv ByName.idx_MAILSYNCRQ ByName.cls_MAILSYNCRQ [] mailsyncKw
+    syncGroup "token".toList mailsync_cls mailsync_group rfl
     (by
-      intro k v hm hagg
-      simp only [mailsyncKw, List.mem_cons, Prod.mk.injEq, List.not_mem_nil, or_false] at hm
-      rcases hm with ⟨_, rfl⟩ | ⟨_, rfl⟩ | ⟨_, rfl⟩ | ⟨_, rfl⟩ <;> cases hagg)
-  match n, hbad, hv with
-  | .agg ci fields [], hbad, hv =>
-    simp only [mailsyncBad, Bool.and_eq_true, beq_iff_eq] at hbad
-    obtain ⟨hci, hcount⟩ := hbad
-    subst hci
-    obtain ⟨c, hc, _, hreq, _⟩ := C04_validFull_groups schema _ _ _ hv
-    rw [mailsync_cls] at hc; injection hc with hc; subst hc
-    have := hreq syncGroup mailsync_group
-    omega
+      intro m hm hne
+      simp only [syncGroup, List.mem_cons, List.not_mem_nil, or_false] at hm
+      rcases hm with rfl | rfl | rfl
+      · exact absurd rfl hne
+      · rintro ⟨v, h, _⟩
+        rw [show lookup "tokenonly".toList mailsyncKw = none from by decide] at h; cases h
+      · rintro ⟨v, h, _⟩
+        rw [show lookup "refresh".toList mailsyncKw = none from by decide] at h; cases h)
 
-/-- the guard of the partial theorem fails exactly here -/
-example : ¬ NoEmptyStr mailsyncKw :=
-  fun h => h "token".toList (.val (.str [])) (by simp [mailsyncKw]) rfl
+/-- the same by evaluation of the model -/
+def isError (r : PyM Node) : Bool := match r with | .ok _ => false | .error _ => true
+
+theorem mailsync_rejected_eval :
+    isError (construct schema Types.conv ByName.idx_MAILSYNCRQ [] mailsyncKw) = true := by decide +kernel
+
+/-- … while the same description with a non-empty token is accepted, and what it returns is valid -/
+def mailsyncKwOk : List (Str × Node) :=
+  [("token".toList, .val (.str "0".toList)), ("rejectifmissing".toList, .val (.bool true)),
+   ("incimages".toList, .val (.bool false)), ("usehtml".toList, .val (.bool false))]
+
+theorem mailsync_ok_accepted :
+    accept (construct schema Types.conv ByName.idx_MAILSYNCRQ [] mailsyncKwOk) Node.isAgg = true := by
+  decide +kernel
+
+example : ∃ n, construct schema Types.conv ByName.idx_MAILSYNCRQ [] mailsyncKwOk = .ok n ∧ ValidFull schema n := by
+  obtain ⟨n, hn, _⟩ := ok_of_accept _ _ mailsync_ok_accepted
+  refine ⟨n, hn, C04_generated_sound_full_kw _ [] mailsyncKwOk n hn (by intro m hm; cases hm) ?_⟩
+  intro k v hm hagg
+  simp only [mailsyncKwOk, List.mem_cons, Prod.mk.injEq, List.not_mem_nil, or_false] at hm
+  rcases hm with ⟨_, rfl⟩ | ⟨_, rfl⟩ | ⟨_, rfl⟩ | ⟨_, rfl⟩ <;> cases hagg
 
 /-! ### non-vacuity on the generated schema -/
 
